@@ -1,0 +1,176 @@
+//! Verification hooks: a step-driven handle on the crate-private replica state machine.
+//! Compiled only with the `verif_hooks` feature; adds no behaviour.
+#![allow(missing_docs, clippy::missing_docs_in_private_items, unreachable_pub)]
+use std::sync::Arc;
+
+use zksync_concurrency::{ctx, sync};
+use zksync_consensus_roles::validator;
+
+use crate::{v2_chonky_bft as v2, Config, FromNetworkMessage, ToNetworkMessage};
+
+/// Read-only view of the replica state.
+#[derive(Debug, Clone)]
+pub struct Snapshot {
+    pub view: validator::ViewNumber,
+    pub phase: validator::v2::Phase,
+    pub high_vote: Option<validator::v2::ReplicaCommit>,
+    pub high_commit_qc: Option<validator::v2::CommitQC>,
+    pub high_timeout_qc: Option<validator::v2::TimeoutQC>,
+    /// (block number, payload hashes cached for it)
+    pub proposal_cache: Vec<(validator::BlockNumber, Vec<validator::PayloadHash>)>,
+    pub commit_views_cache: Vec<(validator::PublicKey, validator::ViewNumber)>,
+    /// (view, number of distinct votes (QCs under construction) for it)
+    pub commit_qcs_cache: Vec<(validator::ViewNumber, usize)>,
+    pub timeout_views_cache: Vec<(validator::PublicKey, validator::ViewNumber)>,
+    pub timeout_qcs_cache: Vec<validator::ViewNumber>,
+}
+
+/// The replica state machine with its channels held by the caller.
+pub struct Replica {
+    sm: v2::StateMachine,
+    outbound: ctx::channel::UnboundedReceiver<ToNetworkMessage>,
+    proposer: sync::watch::Receiver<Option<validator::v2::ProposalJustification>>,
+    _inbound: sync::prunable_mpsc::Sender<FromNetworkMessage>,
+}
+
+impl Replica {
+    /// `StateMachine::start`: loads the persisted replica state through the engine manager.
+    pub async fn start(ctx: &ctx::Ctx, cfg: Arc<Config>) -> ctx::Result<Self> {
+        let (out_send, out_recv) = ctx::channel::unbounded();
+        let (in_send, in_recv) = crate::create_input_channel();
+        let (prop_send, prop_recv) = sync::watch::channel(None);
+        let sm = v2::StateMachine::start(ctx, cfg, out_send, in_recv, prop_send).await?;
+        Ok(Self {
+            sm,
+            outbound: out_recv,
+            proposer: prop_recv,
+            _inbound: in_send,
+        })
+    }
+
+    /// The prologue of `StateMachine::run`: view 0 times out immediately.
+    pub async fn run_prologue(&mut self, ctx: &ctx::Ctx) -> ctx::Result<()> {
+        if self.sm.view_number == validator::ViewNumber(0) {
+            self.sm.start_timeout(ctx).await?;
+        }
+        Ok(())
+    }
+
+    /// The timer branch of `StateMachine::run`.
+    pub async fn start_timeout(&mut self, ctx: &ctx::Ctx) -> ctx::Result<()> {
+        self.sm.start_timeout(ctx).await
+    }
+
+    /// The message branch of `StateMachine::run`: dispatches to the handler of the message
+    /// kind. `Err` carries the `Debug` rendering of the handler's error.
+    pub async fn process(
+        &mut self,
+        ctx: &ctx::Ctx,
+        msg: validator::Signed<validator::ConsensusMsg>,
+    ) -> Result<(), String> {
+        #[allow(irrefutable_let_patterns)]
+        let validator::ConsensusMsg::V2(m) = &msg.msg
+        else {
+            return Err("OtherProtocolVersion".into());
+        };
+        match m {
+            validator::v2::ChonkyMsg::LeaderProposal(_) => self
+                .sm
+                .on_proposal(ctx, msg.cast().unwrap())
+                .await
+                .map_err(|e| format!("{e:?}")),
+            validator::v2::ChonkyMsg::ReplicaCommit(_) => self
+                .sm
+                .on_commit(ctx, msg.cast().unwrap())
+                .await
+                .map_err(|e| format!("{e:?}")),
+            validator::v2::ChonkyMsg::ReplicaTimeout(_) => self
+                .sm
+                .on_timeout(ctx, msg.cast().unwrap())
+                .await
+                .map_err(|e| format!("{e:?}")),
+            validator::v2::ChonkyMsg::ReplicaNewView(_) => self
+                .sm
+                .on_new_view(ctx, msg.cast().unwrap())
+                .await
+                .map_err(|e| format!("{e:?}")),
+        }
+    }
+
+    /// Messages the replica has sent since the last call, in order.
+    pub fn drain_outbound(&mut self) -> Vec<validator::Signed<validator::ConsensusMsg>> {
+        let mut out = vec![];
+        while let Some(m) = self.outbound.try_recv() {
+            out.push(m.message);
+        }
+        out
+    }
+
+    /// Justification handed to the proposer since the last call, if any.
+    pub fn take_proposer_justification(&mut self) -> Option<validator::v2::ProposalJustification> {
+        if self.proposer.has_changed().unwrap_or(false) {
+            self.proposer.borrow_and_update().clone()
+        } else {
+            None
+        }
+    }
+
+    pub fn snapshot(&self) -> Snapshot {
+        let sm = &self.sm;
+        Snapshot {
+            view: sm.view_number,
+            phase: sm.phase,
+            high_vote: sm.high_vote.clone(),
+            high_commit_qc: sm.high_commit_qc.clone(),
+            high_timeout_qc: sm.high_timeout_qc.clone(),
+            proposal_cache: sm
+                .block_proposal_cache
+                .iter()
+                .map(|(n, m)| {
+                    let mut hs: Vec<_> = m.keys().cloned().collect();
+                    hs.sort();
+                    (*n, hs)
+                })
+                .collect(),
+            commit_views_cache: sm
+                .commit_views_cache
+                .iter()
+                .map(|(k, v)| (k.clone(), *v))
+                .collect(),
+            commit_qcs_cache: sm
+                .commit_qcs_cache
+                .iter()
+                .map(|(v, m)| (*v, m.len()))
+                .collect(),
+            timeout_views_cache: sm
+                .timeout_views_cache
+                .iter()
+                .map(|(k, v)| (k.clone(), *v))
+                .collect(),
+            timeout_qcs_cache: sm.timeout_qcs_cache.keys().cloned().collect(),
+        }
+    }
+}
+
+/// `proposer::create_proposal`.
+pub async fn create_proposal(
+    ctx: &ctx::Ctx,
+    cfg: Arc<Config>,
+    justification: validator::v2::ProposalJustification,
+) -> ctx::Result<validator::v2::LeaderProposal> {
+    v2::proposer::create_proposal(ctx, cfg, justification).await
+}
+
+/// The inbound queue's filter predicate.
+pub fn inbound_filter_predicate(req: &FromNetworkMessage) -> bool {
+    crate::inbound_filter_predicate(req)
+}
+
+/// The inbound queue's selection function: 0 = Keep, 1 = DiscardOld, 2 = DiscardNew.
+pub fn inbound_selection_function(old: &FromNetworkMessage, new: &FromNetworkMessage) -> u8 {
+    match crate::inbound_selection_function(old, new) {
+        sync::prunable_mpsc::SelectionFunctionResult::Keep => 0,
+        sync::prunable_mpsc::SelectionFunctionResult::DiscardOld => 1,
+        sync::prunable_mpsc::SelectionFunctionResult::DiscardNew => 2,
+    }
+}
